@@ -2981,6 +2981,12 @@ func (db *DB) Import(ctx context.Context, r io.Reader) error {
 	}
 	defer guard.Unlock()
 
+	// The wait for the lock can outlast the lease: check the role again now
+	// that the commit step begins.
+	if !db.store.IsPrimary() {
+		return ErrReadOnlyReplica
+	}
+
 	// Build the LTX file first. This reads & validates the whole image so that
 	// an import that cannot be applied fails before any local state is discarded.
 	pos, err := db.importToLTX(ctx, r)
